@@ -13,6 +13,7 @@ import (
 	"fmt"
 	"hash/fnv"
 	"math"
+	"math/big"
 	"regexp"
 	"sort"
 	"strconv"
@@ -77,6 +78,9 @@ type vC12Point struct {
 	tags   [][2]string // unique keys, in the order they are written
 	fields []vC12Field // unique keys
 	hasTS  bool
+	// tsValid: ts*multiplier lies inside [MinNanoTime, MaxNanoTime] (computed with big integers);
+	// only the time-boundary draws of the model-first generator can make it false
+	tsValid bool
 	ts     int64 // in units of prec
 	prec   string
 }
@@ -244,11 +248,20 @@ func vC12DrawPoint(rt *rapid.T, classes map[string]bool, prec string) vC12Point 
 	if p.hasTS {
 		m := vC12Mult(p.prec)
 		lo, hi := MinNanoTime/m, MaxNanoTime/m // both truncate toward zero: inside the range
-		switch rapid.IntRange(0, 3).Draw(rt, "tsk") {
+		p.tsValid = true
+		switch rapid.IntRange(0, 4).Draw(rt, "tsk") {
 		case 0:
 			p.ts = rapid.SampledFrom([]int64{lo, hi, lo + 1, hi - 1, 0, -1, 1}).Draw(rt, "tsext")
 			classes["time:extreme"] = true
-		case 1:
+		case 1, 2:
+			// at and around the points where ts*multiplier leaves the valid range or wraps int64
+			p.ts = rapid.SampledFrom(vC12BoundaryTimes(p.prec)).Draw(rt, "tsboundary")
+			_, p.tsValid = vC12TimeProduct(p.ts, p.prec)
+			classes["time:range-boundary"] = true
+			if !p.tsValid {
+				classes["time:out-of-range"] = true
+			}
+		case 3:
 			p.ts = rapid.Int64Range(-100000, 100000).Draw(rt, "tssmall")
 		default:
 			p.ts = rapid.Int64Range(lo, hi).Draw(rt, "tsany")
@@ -260,6 +273,67 @@ func vC12DrawPoint(rt *rapid.T, classes map[string]bool, prec string) vC12Point 
 		classes["time:default"] = true
 	}
 	return p
+}
+
+// vC12TimeProduct computes ts*multiplier(prec) with big integers and says whether it lies in the
+// range the parser documents as valid: [MinNanoTime, MaxNanoTime], both ends included
+// (models/time.go: CheckTime rejects t.Before(min) and t.After(max)).
+func vC12TimeProduct(ts int64, prec string) (*big.Int, bool) {
+	v := new(big.Int).Mul(big.NewInt(ts), big.NewInt(vC12Mult(prec)))
+	return v, v.Cmp(big.NewInt(MinNanoTime)) >= 0 && v.Cmp(big.NewInt(MaxNanoTime)) <= 0
+}
+
+var vC12BoundaryCache = map[string][]int64{}
+
+// vC12BoundaryTimes lists, for one precision, the timestamps at and around the places where
+// ts*multiplier crosses MinInt64/MaxInt64 (+-0,1,2) and where it wraps a whole number of times
+// around 2^64 (k*2^64/multiplier for k = +-1, +-2, offsets -1..2), as far as they fit an int64.
+func vC12BoundaryTimes(prec string) []int64 {
+	if l, ok := vC12BoundaryCache[prec]; ok {
+		return l
+	}
+	m := big.NewInt(vC12Mult(prec))
+	set := map[int64]bool{}
+	add := func(v *big.Int) {
+		if v.IsInt64() {
+			set[v.Int64()] = true
+		}
+	}
+	for _, base := range []*big.Int{big.NewInt(math.MaxInt64), big.NewInt(math.MinInt64), big.NewInt(MaxNanoTime), big.NewInt(MinNanoTime)} {
+		q := new(big.Int).Quo(base, m) // truncated
+		for d := int64(-2); d <= 2; d++ {
+			add(new(big.Int).Add(q, big.NewInt(d)))
+		}
+	}
+	two64 := new(big.Int).Lsh(big.NewInt(1), 64)
+	for _, k := range []int64{-2, -1, 1, 2} {
+		q := new(big.Int).Mul(two64, big.NewInt(k))
+		q.Div(q, m) // floor
+		for d := int64(-1); d <= 2; d++ {
+			add(new(big.Int).Add(q, big.NewInt(d)))
+		}
+	}
+	var l []int64
+	for v := range set {
+		l = append(l, v)
+	}
+	sort.Slice(l, func(i, j int) bool { return l[i] < l[j] })
+	vC12BoundaryCache[prec] = l
+	return l
+}
+
+// vC12ForceValidTime is used by the generators that need valid lines only: an out-of-range
+// boundary timestamp is replaced by the nearest valid one.
+func vC12ForceValidTime(m *vC12Point) {
+	if m.hasTS && !m.tsValid {
+		mult := vC12Mult(m.prec)
+		if m.ts < 0 {
+			m.ts = MinNanoTime / mult
+		} else {
+			m.ts = MaxNanoTime / mult
+		}
+		m.tsValid = true
+	}
 }
 
 // ---------------------------------------------------------------- writer (documented escaping only)
@@ -623,7 +697,10 @@ func vC12StrictFields(f []byte) string {
 			i++
 		}
 		if i == ks {
-			return "empty-key"
+			if i < len(f) && f[i] == '=' {
+				return "empty-key" // "=value" with nothing in front: the repaired shape, not tolerated
+			}
+			return "key-without-equals" // leading or doubled comma: the counting-heuristic family
 		}
 		if i >= len(f) || f[i] != '=' {
 			return "key-without-equals"
@@ -701,6 +778,7 @@ func vC12KnownShape(p Point) string {
 // ---------------------------------------------------------------- strict reference for unquoted values
 
 var (
+	vC12ReTime  = regexp.MustCompile(`^-?[0-9]+$`)
 	vC12ReInt   = regexp.MustCompile(`^-?[0-9]+i$`)
 	vC12ReUint  = regexp.MustCompile(`^[0-9]+u$`)
 	vC12ReFloat = regexp.MustCompile(`^-?([0-9]+\.?[0-9]*|\.[0-9]+)([eE][+-]?[0-9]+)?$`)
@@ -842,6 +920,22 @@ func vC12CheckAccepted(p Point, prec string, splitSize int) *vC12Err {
 			return tokErr
 		}
 
+		// the timestamp token the parser kept, multiplied by the precision with big integers, is
+		// inside the documented range and is exactly the point's time
+		if pp, ok := p.(*point); ok && len(pp.ts) > 0 {
+			tok := string(pp.ts)
+			if !vC12ReTime.MatchString(tok) {
+				return vC12Fail("accepted-bad-timestamp-token", "accepted timestamp token %q is not an integer", tok)
+			}
+			tv, _ := new(big.Int).SetString(tok, 10)
+			prod := new(big.Int).Mul(tv, big.NewInt(vC12Mult(prec)))
+			if prod.Cmp(big.NewInt(MinNanoTime)) < 0 || prod.Cmp(big.NewInt(MaxNanoTime)) > 0 {
+				return vC12Fail("out-of-range-time-accepted", "timestamp %s at precision %q is %s ns, outside [%d, %d], but the line was accepted with time %d", tok, prec, prod, MinNanoTime, MaxNanoTime, p.UnixNano())
+			}
+			if prod.Int64() != p.UnixNano() {
+				return vC12Fail("time-differs-from-text", "timestamp %s at precision %q is %s ns, the point has %d", tok, prec, prod, p.UnixNano())
+			}
+		}
 		key := append([]byte(nil), p.Key()...)
 		// O5 (hash part): HashID is FNV-64a of the key, computed by the standard library here
 		if p.HashID() != vC12FNV(key) {
